@@ -44,7 +44,7 @@ def build(desc, s, w, ctx):
     from more_executors.timeout import TimeoutExecutor
     from more_executors.cancel_on_shutdown import CancelOnShutdownExecutor
     from more_executors.sync import SyncExecutor
-    from more_executors.futures import f_return
+    from more_executors.futures import f_return, f_return_error
 
     base = desc["base"]
     if base == "simsync":
@@ -74,9 +74,25 @@ def build(desc, s, w, ctx):
                         # inner future of the property text; its callable logs `ucall innerwork<li>` when it starts
                         inner(x)
                         return ctx.delegate.submit(w.fn("innerwork%d" % li, [[("ret", x)]]))
+                    if p.get("fail_as_future"):
+                        # a failing function hands back an already FAILED future instead of raising: the same outcome by the
+                        # property, a different path through the library (the flattened future is done when it is returned)
+                        try:
+                            return f_return(inner(x))
+                        except Exception as e:
+                            return f_return_error(e)
                     return f_return(inner(x))
                 return fn
-            ex = FlatMapExecutor(ex, mk(), name=nm)
+            fefn = None
+            if p.get("errfn"):
+                def mkerr(li=li, p=p):
+                    einner = w.fn("errfn%d" % li, p.get("escript"), default=(("reraise",),))
+
+                    def efn(exc):
+                        return f_return(einner(exc))
+                    return efn
+                fefn = mkerr()
+            ex = FlatMapExecutor(ex, mk(), error_fn=fefn, name=nm) if fefn is not None else FlatMapExecutor(ex, mk(), name=nm)
         elif kind == "retry":
             if p.get("custom"):
                 pol = ScriptPolicy(w, li, p)
